@@ -42,7 +42,7 @@ func init() {
 	}
 	versPools["rpm"] = [][]string{
 		{"0.1", "0.5", "1.0", "1.0.1", "1.2", "1.5", "2.0", "2.1", "3.0", "3.5", "4.0", "4.5", "5.0", "6.0", "7.0", "8.0", "9.0"},
-		{"1.0~alpha", "1.0~rc1", "1.0", "1.0-1", "1.0-2", "1.0.1", "1.1~rc1", "1.1", "1.1^git1", "1.2-1.el7", "1.10", "2.0", "1:0.1", "1:0.2", "1:1.0~rc1", "1:1.0", "2:0.1"},
+		{"1.0~alpha", "1.0~rc1", "1.0", "1.0-1", "1.0-2", "1.0^git1", "1.0.1", "1.1~rc1", "1.1", "1.1^git1", "1.2-1.el7", "1.10", "2.0", "1:0.1", "1:0.2", "1:1.0~rc1", "1:1.0", "2:0.1"},
 	}
 	versPools["gem"] = [][]string{
 		{"0.1", "0.5", "1.0", "1.0.1", "1.2", "1.5.0", "2.0", "2.1", "3.0.0", "3.5", "4.0", "4.5", "5.0", "6.0", "7.0", "8.0", "9.0"},
